@@ -37,18 +37,6 @@ Proof.
   unfold workers_ok; simpl; intros cc Hin; intuition discriminate.
 Qed.
 
-(* exec / frame leave the stack and the raising flag of the running thread alone *)
-Lemma exec_own_stack : forall g t i a s,
-  match exec g t i a s with
-  | Blocked => True
-  | Norm s' _ _ => stk (getth s' t) = stk (getth s t) /\ raising (getth s' t) = raising (getth s t)
-  | Raise s' _ _ => stk (getth s' t) = stk (getth s t) /\ raising (getth s' t) = raising (getth s t)
-  end.
-Proof.
-  intros. destruct i; cbn [exec]; repeat split_innermost; auto;
-  rewrite ?getth_setth_same, ?getth_setc, ?getth_set_srv; auto.
-Qed.
-
 Lemma app_last_cases : forall (i : instr) rest pre k,
   i :: rest = pre ++ [k] -> (rest = [] /\ i = k) \/ (exists pre', rest = pre' ++ [k]).
 Proof.
